@@ -120,6 +120,11 @@ def gen(rng):
         if rng.random() < 0.5:
             ops.append("sleep 500"); ops.append("ping x1")
         ops.append("sleep 1500")
+    elif end == "disc" and v == 5 and se and rng.random() < 0.5:
+        # the session store fails while the DISCONNECT's new Session Expiry Interval is written (2nd persistence call of the handler,
+        # after the Get): the DISCONNECT is still a normal DISCONNECT — no will (seed C08-6)
+        ops[0] += " pe=faulty"
+        ops += ["api failat 2", f"disc x1 se={rng.choice([300, 60])}", "api failat 0"]
     elif end == "disc":
         ops.append("disc x1" + (f" se={rng.choice([0, 300])}" if v == 5 and rng.random() < 0.3 else ""))
     elif end == "disc4":
